@@ -21,8 +21,8 @@ ASSUMPTIONS = [
     "hashlib.sha256/sha512 are correct",
 ]
 
-N = {"quick": 1800, "thorough": 48000}
-SHARDS = {"quick": 12, "thorough": 16}
+N = {"quick": 6000, "thorough": 200000}
+SHARDS = {"quick": 16, "thorough": 32}
 
 
 def plan(tier, seed):
